@@ -302,6 +302,15 @@ func replayOne(t *testing.T, rf *vstat.ReplayFile) string {
 			}
 		}
 		return ""
+	case rf.Part == "closing":
+		var sc CloseCase
+		if err := json.Unmarshal(rf.Scenario, &sc); err != nil {
+			return "bad close case: " + err.Error()
+		}
+		if _, err := runClose(t, &sc); err != nil {
+			return err.Error()
+		}
+		return ""
 	case rf.Part == "spell":
 		var sc SpellCase
 		if err := json.Unmarshal(rf.Scenario, &sc); err != nil {
